@@ -559,7 +559,21 @@ def run(ctx):
     # every piece cut out by the splitter is stripped of surrounding blanks (added whitespace does not change what is selected)
     f_so = repo.func('matcher._split_on')
     apps = [e for p in paths_of(repo, f_so, while_unroll=1, asserts='ignore') for e in p.events if e.kind == 'call' and e.ftext and e.ftext.endswith('.append') and e.args]
-    ctx.check(bool(apps) and all(norm(e.args[0]).endswith('.strip()') for e in apps), 'C05.6', 'split:pieces-stripped', f_so.loc(), 'every piece of a split matcher text is stripped of surrounding blanks')
+    if not apps:
+        # the pieces are not collected with append (a comprehension, a generator): the elements of what is returned are judged instead
+        elems = []
+        for p in paths_of(repo, f_so, while_unroll=1, asserts='ignore'):
+            if p.outcome[0] != 'return':
+                continue
+            for x in ast.walk(p.outcome[1]):
+                if isinstance(x, (ast.GeneratorExp, ast.ListComp)):
+                    elems.append(x.elt)
+        if not elems:
+            raise AnalysisError('C05.6: cannot see how _split_on builds its pieces')
+        ctx.check(all(norm(x).endswith('.strip()') for x in elems), 'C05.6', 'split:pieces-stripped', f_so.loc(), 'every piece of a split matcher text is stripped of surrounding blanks',
+                  'pieces are built as %s' % [norm(x)[:50] for x in elems][:3])
+    else:
+        ctx.check(all(norm(e.args[0]).endswith('.strip()') for e in apps), 'C05.6', 'split:pieces-stripped', f_so.loc(), 'every piece of a split matcher text is stripped of surrounding blanks')
     return ('truth tables of the list / argument-list / pair / pattern combinators by path enumeration with three-valued evaluation of what each path consulted; projection '
             'table of the value matchers; folding of the wildcard construction; role tables of the parser. Decided: %s. Undecided: %s'
             % ('; '.join(ctx.decided), '; '.join(ctx.undecided)))
